@@ -1180,12 +1180,13 @@ def lifecycle_batches(seed, tier):
 def c16(pid, tier, replay):
     scr = vlib.Scratch(pid)
     out = devcheck.Outcome(pid, tier, ["C16_"])
-    cfg = ('SPECIFICATION Spec\nCONSTANTS\n  NEvents = %d\n  NMidi = 2\n  MaxCycles = %d\n  CleanupLocks = {"M"}\n'
-           'INVARIANTS NoRace NoLeftover LocksReleased\nPROPERTIES Terminates\nCHECK_DEADLOCK FALSE\n' % ((2, 2) if tier == "quick" else (3, 3)))
-    res = vlib.run_tlc(scr, "Lifecycle", cfg, workers=8, timeout=1200)
-    if not res.completed:
-        raise Infra("Lifecycle.tla (clean-up under the event mutex, the design in the tree) does not satisfy its properties:\n" + res.tail(40))
-    out.add_mc("Lifecycle.tla CleanupLocks={M}", res)
+    cfg = ('SPECIFICATION Spec\nCONSTANTS\n  NEvents = %d\n  NMidi = 2\n  MaxCycles = %d\n  CleanupLocks = {"M"}\n  Unbounded = %s\n'
+           'INVARIANTS NoRace NoLeftover LocksReleased\nPROPERTIES Terminates\nCHECK_DEADLOCK FALSE\n')
+    for args in [((2, 2) if tier == "quick" else (3, 3)) + ("FALSE",), (1, 1, "TRUE")]:
+        res = vlib.run_tlc(scr, "Lifecycle", cfg % args, workers=8, timeout=1200)
+        if not res.completed:
+            raise Infra("Lifecycle.tla (clean-up under the event mutex, the design in the tree) does not satisfy its properties:\n" + res.tail(40))
+        out.add_mc("Lifecycle.tla CleanupLocks={M} NEvents=%d MaxCycles=%d Unbounded=%s" % args, res)
     scr.build(race=True)
     racelog = scr.path("race.log")
     groups = lifecycle_batches(vlib.seed(), tier)
